@@ -146,6 +146,29 @@ CHECKS["C19"] = {
     "technique": "static analysis: exact symbolic normal forms (Moebius chains, exp/log cancellation, rational break-points) of the extracted closed forms",
 }
 
+CHECKS["C15"] = {
+    "level": "other",
+    "text": ("Decides: no in-place write through the input unless in_place (flag-sensitive effect analysis), result dtype = input "
+             "dtype with a float64 correlation (dtype lattice), the Kaldi filter recursion, pad/crop consistency as an exact "
+             "quasi-affine identity for every odd filter length, target axis handed to NumPy unmodified (a negative axis normalised "
+             "against the input's rank under concatenate=False is reported), Stack's axis normalisation, whole-sequence right "
+             "padding, divisibility and drop rule, and the shape of its two paths. Does NOT decide equality of Stack's 2-D and N-D "
+             "paths nor Kaldi value equivalence along arbitrary axes."),
+    "design_ref": "DESIGN.md §3 C15",
+    "note": NOTE_COMMON,
+    "technique": "static analysis: effect analysis with the in_place flag, dtype lattice, exact closed forms of filter recursion / pad-crop / stack arithmetic, axis rules",
+}
+CHECKS["C18"] = {
+    "level": "other",
+    "text": ("Decides: one whole-array stencil x[...,1:] -= coeff*x[...,:-1] on every path (no chunked update that could read "
+             "already-updated samples), torch twin with a prepended zero, dtype recorded first / float64 work / cast back, in-place "
+             "writes only with in_place (flag-sensitive effect analysis), Dither's draw is numpy.random.normal(0, coeff, shape-only) "
+             "from the global generator, added once, with no instance state. Does NOT decide distributional facts."),
+    "design_ref": "DESIGN.md §3 C18",
+    "note": NOTE_COMMON,
+    "technique": "static analysis: stencil rule, dtype round-trip rule, effect analysis with the in_place flag, provenance of the random draw's arguments, purity",
+}
+
 _PENDING = "check not built yet in this session (static-analysis clauses planned in DESIGN.md §3)"
 NOT_APPLICABLE = {("C%02d" % i): _PENDING for i in range(1, 21) if ("C%02d" % i) not in CHECKS}
 
